@@ -27,6 +27,16 @@ CLAIMS = {
         text='Static: all six update paths rebuild state with count = incoming count + 1; every refresh guard (DS statistics, DS roots in 3 modes x valuations, Tearfree Shampoo x2, Sketchy) normalises to incoming_count % configured_interval == 0 and the count reaching the helpers is state.count unmodified; the not-taken arm returns the incoming slots themselves (statistics, blocks, sketches, metrics; ekfac restore of 5 sketch slots); roots are computed from the statistics of the same step (previous refresh in sharded mode); warm-up switch is count >= start with the preconditioned value on the true side; scheduled interval clamped >= 1. Necessary conditions of C04.',
         note='Trusted: lax.cond/efficient_cond evaluate one arm and return it bit-for-bit; tree.map is leaf-wise. Undecided: traced non-integer schedule values; numerical agreement of roots with statistics.',
         design='4/C04'),
+    'C05': dict(
+        technique='algebraic derivation on the value graph (sympy): pre-momentum update = s*P with s*||P|| == ||graft step||; arm/dispatch table checks for Tearfree grafting',
+        text='Static: from the value graph of the per-parameter transform the accumuland of the Shampoo momentum is shown, for every graft type / lr coupling, to be a scalar multiple of the preconditioned gradient whose norm equals the norm of the accumuland of the graft momentum (eps -> 0), and to equal the graft step itself for skipped parameters; Tearfree maybe_graft: base*||graft||/||base|| with 0 for ||base|| = 0, graft step itself on the masked and warm-up arms; GraftingType dispatch, norm-optimiser formulas, masked/unmasked plumbing and the mask rule agree with the documentation. Necessary conditions of C05.',
+        note='Trusted: norm homogeneity; uninterpreted jax primitives. Undecided: closeness for eps != 0; that P is the right preconditioned gradient (C02/C10).',
+        design='4/C05'),
+    'C06': dict(
+        technique='pairing rules on the value graph (split/concat, reshape in/out, pad/slice), sibling dispatch cross-check, index-map algebra over reshape/transpose chains from partial evaluation of the shape code, predicate consistency lint',
+        text='Static: BlockPartitioner partition/merge are mutually inverse by construction (forward split vs reversed concat on the same axis, group size = slice width = stride, (d-1)//B split points); reshape in/out pairing in Preconditioner and the Tearfree reshaper (pad at end / slice from 0 of one _derive_shapes result, ceil padding); the three dispatchers on preconditioner type agree on all (type, rank<=1) states; per-block preconditioner slices [i*k,(i+1)*k) and block-major announcement; merge guard product*d <= max_dim; _deblockify(_blockify(x)) == x and block contiguity proved by an index-map algebra for every structural case (rank <= 3 quick, <= 4 thorough); the large-axis predicate dim >= block_size is uniform and init rejects what the block arithmetic cannot handle.',
+        note='Trusted: numpy semantics of split/concatenate/reshape/transpose; blockify logic depends on which axes are large, not on the particular sizes. Undecided: BlockPartitioner element order on every concrete shape (numpy np.arange-based metadata not folded).',
+        design='4/C06'),
 }
 
 NOT_BUILT_REASON = 'checker for this property not built yet (build phase in progress; see DESIGN.md section 9)'
